@@ -215,13 +215,10 @@ func c04Scenarios(tier string) []*core.Scenario {
 	}
 	var scs []*core.Scenario
 	rule := "branch mnemonic x every gap (RESB n between branch and target) x forward/backward x label/numeric target x ORG x BITS; the branch is decoded by the reference decoder: condition code, next+disp == real target (sentinel-located), no stray prefix, emitted length == pass-1 size; non-trivial = assembled without error; distinct = distinct (mode, branch bytes)"
-	if !thorough {
-		scs = append(scs, mk("core_all_gaps", []string{"JMP", "JE", "JNZ", "JA", "JNBE", "CALL"}, gaps, rule))
-		scs = append(scs, mk("all_mnemonics_boundary", c04All, boundary, rule))
-	} else {
-		scs = append(scs, mk("all_mnemonics_all_gaps", c04All, gaps, rule))
-		scs = append(scs, mk("far_gaps", []string{"JMP", "JE", "CALL", "JNLE"}, farGaps, rule))
-	}
+	_ = boundary
+	_ = thorough // both tiers: the full product takes about 20 s
+	scs = append(scs, mk("all_mnemonics_all_gaps", c04All, gaps, rule))
+	scs = append(scs, mk("far_gaps", []string{"JMP", "JE", "CALL", "JNLE"}, farGaps, rule))
 	// far jumps
 	segs := []int64{0, 1, 8, 0x10, 0xffff}
 	offs := []int64{0, 1, 0x1b, 0x7f, 0x80, 0xff, 0x100, 0x7fff, 0x8000, 0xffff, 0x10000, 0x7fffffff, 0x80000000, 0xffffffff}
